@@ -671,6 +671,16 @@ def _enc_classes(g, rng, thorough):
         for pos in (0, 1, ln - 1):
             b2 = bytearray(O.encode(K, None, comp)); b2[pos] |= 1 if pos else 0x01
             out.append(("identity+garbage", bytes(b2), comp))
+        # identity with garbage in SEVERAL bytes (a test of "all remaining bytes are zero" by an accumulated sum / xor /
+        # or of the bytes can cancel): byte sums that are multiples of 256, xors that vanish, values above 255 in total
+        for junk in ([(1, 0x80), (2, 0x80)], [(ln - 1, 0xff), (ln - 2, 0x01)], [(1, 0x40), (2, 0x40), (3, 0x40), (4, 0x40)], [(5, 0x55), (ln - 5, 0x55)],
+                     [(i_, 0xff) for i_ in range(1, ln)], [(1, 0xff), (2, 0xff), (3, 0x02)], [(ln // 2, 0x80), (ln // 2 + 1, 0x7f), (ln - 1, 0x01)]):
+            b2 = bytearray(O.encode(K, None, comp))
+            for (pos, v) in junk:
+                b2[pos] = v
+            out.append(("identity+multi-byte-garbage", bytes(b2), comp))
+            b3 = bytearray(b2); b3[0] |= 0x20                          # and with the sort flag
+            out.append(("identity+multi-byte-garbage+sort-flag", bytes(b3), comp))
         # x with / without root: small x
         for xv in range(0, 12 if not thorough else 200):
             x = K.from_int(xv)
